@@ -18,8 +18,19 @@ def run(e):
     try:
         p = os.path.join(repo, e["file"])
         src = open(p).read()
+        if "line" in e:
+            lines = src.split("\n")
+            l = lines[e["line"] - 1]
+            assert l[e["c0"]:e["c1"]] == e["old"], (l, e)
+            lines[e["line"] - 1] = l[:e["c0"]] + e["new"] + l[e["c1"]:]
+            src = "\n".join(lines)
+            e = dict(e, old="\0never")
+            open(p, "w").write(src)
         parts = src.split(e["old"])
         n = e.get("nth", 0)
+        if "line" in e:
+            parts, n = [src, ""], 0
+            e = dict(e, old="", new="")
         if len(parts) - 1 <= n:
             return dict(e, result="pattern not found")
         dst = e["old"].join(parts[:n + 1]) + e["new"] + e["old"].join(parts[n + 1:])
